@@ -796,7 +796,10 @@ static std::string run_case(const std::string& line) {
     std::string one;
     while (std::getline(ss, one, '+')) {
       if (one.find('c') != std::string::npos || one.find('h') != std::string::npos) c.viol.push_back(std::string("peerinfo-not-disconnected:") + when + ":" + one);
-      else if (one.substr(one.find(':') + 1) != "0") c.viol.push_back(std::string("peerinfo-transfer-counter:") + when + ":p" + std::to_string(p.id) + "=" + one);
+      // right after the abort an erased (dissimilar) transfer of the peer may still sit in a block another peer is
+      // filling; it has to be gone once every connection is closed and the torrent stopped
+      else if (strcmp(when, "stop") == 0 && one.substr(one.find(':') + 1) != "0")
+        c.viol.push_back(std::string("peerinfo-transfer-counter:") + when + ":p" + std::to_string(p.id) + "=" + one);
     }
   };
   if (fault == 'X' || fault == 'R' || fault == 'H') check_gone(*c.peers[tgt], "post");
